@@ -302,7 +302,7 @@ func report(o checkOpts, eng *Engine, x *Explorer, hs []*Harness, seed int64, st
 			fmt.Printf("INCONCLUSIVE harness=%s reason=vacuity: reach points not reached: %s\n", h.name, strings.Join(unreached, ","))
 		}
 		inconclusive += hInc
-		if hInc > 0 {
+		if hInc > 0 || forkStats {
 			for n, k := range rep.Notes {
 				fmt.Printf("  note harness=%s x%d: %s\n", h.name, k, n)
 			}
